@@ -85,7 +85,7 @@ PROPS = {
         technique="Lean 4 theorems over an executable model + differential correspondence with the Go code",
     ),
     "C03": dict(
-        modules=["SpatialId.Props.C03", "SpatialId.Props.Tie", "SpatialId.Props.Facts.Zoom"],
+        modules=["SpatialId.Props.C03", "SpatialId.Props.Tie.Shift", "SpatialId.Props.Tie.HZoom", "SpatialId.Props.Facts.Zoom"],
         families=[("chgExt", 12000, 60000), ("chgSp", 6000, 40000), ("axis", 12000, 100000), ("axisLattice", 1, 1)],
         trusted_base=COMMON_TB,
         assumptions=["int64(math.Pow(2, n)) is exact for 0 <= n <= 62"],
@@ -117,7 +117,7 @@ PROPS = {
         technique="Lean 4 theorems over an executable model + differential correspondence with the Go code",
     ),
     "C05": dict(
-        modules=["SpatialId.Props.C05", "SpatialId.Props.Tie"],
+        modules=["SpatialId.Props.C05", "SpatialId.Props.Tie.Shift", "SpatialId.Props.Tie.Offset"],
         families=[("ovE", 10000, 60000), ("ovEA", 5000, 30000), ("ovS", 10000, 60000), ("ovSA", 5000, 30000)],
         trusted_base=COMMON_TB + [
             "multidimensional-radix-tree (third party) is an oracle: IsOverlap(q) holds iff a stored key is a prefix of q or "
@@ -192,7 +192,7 @@ PROPS = {
         technique="Lean 4 theorems over an executable model + differential correspondence with the Go code",
     ),
     "C12": dict(
-        modules=["SpatialId.Props.C12", "SpatialId.Props.Tie"],
+        modules=["SpatialId.Props.C12", "SpatialId.Props.Tie.Shift", "SpatialId.Props.Tie.Z2K", "SpatialId.Props.Tie.K2Z"],
         families=[("altkey", 40000, 300000), ("altkeyLattice", 1, 1)],
         trusted_base=COMMON_TB,
         assumptions=["zooms and base exponent within 0..35 (all cell boundaries are then multiples of 2^-35 m)"],
@@ -208,7 +208,7 @@ PROPS = {
         technique="Lean 4 theorems over an executable model + differential correspondence with the Go code",
     ),
     "C13": dict(
-        modules=["SpatialId.Props.C13", "SpatialId.Props.Tie"],
+        modules=["SpatialId.Props.C13", "SpatialId.Props.Tie.Shift", "SpatialId.Props.Tie.K2Z"],
         families=[("tiles", 3000, 15000)],
         trusted_base=COMMON_TB,
         assumptions=["zooms and base exponent within 0..35"],
@@ -240,7 +240,7 @@ PROPS = {
         technique="Lean 4 theorems over an oracle-parametric model + differential correspondence with oracle tables",
     ),
     "C15": dict(
-        modules=["SpatialId.Props.C15", "SpatialId.Props.Tie", "SpatialId.Props.C01", "SpatialId.Props.C02", "SpatialId.Props.C03", "SpatialId.Props.C04",
+        modules=["SpatialId.Props.C15", "SpatialId.Props.Tie.Shift", "SpatialId.Props.Tie.Api", "SpatialId.Props.C01", "SpatialId.Props.C02", "SpatialId.Props.C03", "SpatialId.Props.C04",
                  "SpatialId.Props.C05", "SpatialId.Props.C08", "SpatialId.Props.C10", "SpatialId.Props.C11", "SpatialId.Props.C13", "SpatialId.Props.Facts.Point"],
         families=[("reject", 40000, 300000), ("newpt", 15000, 100000), ("points", 5000, 40000), ("tiles", 1000, 5000),
                   ("qv", 1500, 8000)],
@@ -279,7 +279,7 @@ PROPS = {
         technique="Lean 4 theorems over executable models + metamorphic differential checks on the Go code",
     ),
     "C17": dict(
-        modules=["SpatialId.Props.C17", "SpatialId.Props.Tie", "SpatialId.Props.Facts.BitAlt"],
+        modules=["SpatialId.Props.C17", "SpatialId.Props.Tie.Shift", "SpatialId.Props.Facts.BitAlt"],
         families=[("bitalt", 30000, 200000), ("f64", 10000, 100000)],
         trusted_base=COMMON_TB + F64_TB,
         assumptions=["|vIndex| + 1 < 2^53 and vertical zoom within 0..35 (the index to altitude conversion is then exact)"],
